@@ -361,6 +361,7 @@ def gen_gp_twin(rng, nearly_exhausted=False):
     return dict(kind="gp_twin", sched=kind, spec=spec, pts=h.gen_points(rng, spec, space), seed=rng.randrange(10 ** 6),
                 # constructor options which must survive the clone: an explicit local optimiser class
                 local_minimizer=rng.choice([None, None, "NoOptimization", "corner"]),
+                pre_snapshots=sorted(rng.sample(range(2 * n), 3)) if rng.random() < 0.5 else [],
                 num_init_random=rng.choice([1, 2, 3]), search_options=so, ops=ops, cuts=cuts, max_suggest=n,
                 metrics=[round(rng.uniform(0, 1), 3) for _ in range(4 * n)], pickle_state=rng.random() < 0.4,
                 order=rng.choice(["sequential", "interleaved"]))
@@ -411,6 +412,36 @@ def gen_gp_twin_restrict(rng):
                 pickle_state=rng.random() < 0.5, order="sequential", directed_history="restrict_configurations_snapshot_in_random_phase")
 
 
+def gen_gp_twin_nonfinite_pending(rng, kind):
+    """a PENDING trial reports NaN / inf (rejected as data, marked failed, its pending evaluation stays); snapshot after
+    that report, then model-based suggestions which fantasise over the pending evaluations"""
+    spec = [["x", "dom", ["uniform", 0.0, 1.0]], ["y", "dom", ["uniform", -1.0, 1.0]]]
+    k = rng.randint(4, 5)
+    bad = rng.choice(["nan", "inf", "-inf"])
+    hist = ["suggest", "complete"] * k + ["suggest", "suggest", ["complete" if kind.startswith("fifo") else "report", k, bad]]
+    cont = ["suggest", "suggest", ["complete", k + 1], "suggest"]
+    return dict(kind="gp_twin", sched=kind, spec=spec, pts=[], seed=rng.randrange(10 ** 6), num_init_random=3,
+                search_options=dict(opt_nstarts=1, opt_maxiter=5), ops=hist + cont, workers=8, cuts=[len(hist)],
+                max_suggest=len(hist) + len(cont), metrics=[round(rng.uniform(0, 1), 3) for _ in range(30)],
+                pickle_state=rng.random() < 0.5, order="sequential", directed_history="non_finite_report_of_pending_trial_before_snapshot")
+
+
+def gen_gp_twin_repeated_snapshots(rng, kind):
+    """several get_state calls on ONE searcher object; between two of them a pending trial fails and a new trial is
+    started, no new observation; the clone is restored from the LATER snapshot"""
+    spec = [["a", "dom", ["randint", 0, 5]], ["b", "dom", ["choice", ["p", "q", "r"]]]]
+    k = rng.randint(3, 4)
+    hist = ["suggest", "complete"] * k + ["suggest", "suggest"]
+    first = len(hist)
+    hist += [["error", k], "suggest"] + rng.choice([[], [["error", k + 1], "suggest"]])
+    cont = ["suggest", ["complete", k + 2], "suggest", "suggest", "complete", "suggest"]
+    return dict(kind="gp_twin", sched=kind, spec=spec, pts=[], seed=rng.randrange(10 ** 6), num_init_random=2,
+                search_options=dict(opt_nstarts=1, opt_maxiter=5), ops=hist + cont, workers=8, cuts=[len(hist)],
+                pre_snapshots=[first - 2, first, first + 2], max_suggest=len(hist) + len(cont),
+                metrics=[round(rng.uniform(0, 1), 3) for _ in range(30)], pickle_state=rng.random() < 0.5,
+                order="sequential", directed_history="several_snapshots_of_one_searcher_failure_and_new_trial_in_between")
+
+
 def rng_state_equal(a, b):
     """all five entries of RandomState.get_state(): name, key array, pos, has_gauss, cached_gaussian"""
     return (len(a) == len(b) == 5 and a[0] == b[0] and np.array_equal(np.asarray(a[1]), np.asarray(b[1]))
@@ -432,8 +463,11 @@ class Player:
         sch, case = self.sch, self.case
         sync = case["sched"] in ("synchb", "dehb")
         target = None
-        if isinstance(op, (list, tuple)):       # [name, trial id]: the event concerns this running trial
-            op, target = op
+        metric_override = None
+        if isinstance(op, (list, tuple)):       # [name, trial id (, metric value)]: the event concerns this running trial
+            if len(op) == 3:
+                metric_override = op[2]
+            op, target = op[0], op[1]
         if op == "suggest" or not self.running:
             if self.n_sug >= case["max_suggest"] or len(self.running) >= (3 if sync else case.get("workers", 4)):
                 if not self.running:
@@ -489,7 +523,8 @@ class Player:
             del self.running[t]
             return
         self.epoch[t] += 1
-        res = {"m": case["metrics"][self.mi % len(case["metrics"])], "epoch": self.epoch[t]}
+        mv = case["metrics"][self.mi % len(case["metrics"])] if metric_override is None else metric_override
+        res = {"m": float(mv), "epoch": self.epoch[t]}          # 'nan' / 'inf' / '-inf' are stored as strings
         dec = sch.on_trial_result(tr, res)
         self.trace.append(("result", t, self.epoch[t], dec))
         if dec == "STOP":
@@ -537,7 +572,12 @@ def run_gp_twin_at(ctx, case):
     for p in (pa, pb, pc):
         p.probe = params_probe
     cut = case["cut"]
-    for op in case["ops"][:cut]:
+    for i, op in enumerate(case["ops"][:cut]):
+        if i in case.get("pre_snapshots", ()) and pb.n_sug > 0:
+            # earlier snapshots taken from the SAME searcher object (and not used): get_state must neither change the
+            # searcher nor leave anything behind that a later snapshot reuses
+            with contextlib.redirect_stdout(io.StringIO()):
+                pb.sch.searcher.get_state()
         for p in (pa, pb, pc):
             p.step(op)
     assert pa.trace == pb.trace == pc.trace, "twins differ before the snapshot"
@@ -759,6 +799,9 @@ def run(ctx, replay=None):
         for kind in ("fifo-bayesopt", "hb-stopping-bayesopt"):
             cases += [gen_gp_twin_many_pending(rng, kind) for _ in range(ctx.n(3, 12))]
         cases += [gen_gp_twin_restrict(rng) for _ in range(ctx.n(6, 30))]
+        for kind in ("fifo-bayesopt", "hb-stopping-bayesopt"):
+            cases += [gen_gp_twin_nonfinite_pending(rng, kind) for _ in range(ctx.n(2, 10))]
+            cases += [gen_gp_twin_repeated_snapshots(rng, kind) for _ in range(ctx.n(2, 10))]
         for lm in ("NoOptimization", "corner"):        # directed: explicit local_minimizer_class, model-based steps after the snapshot
             for kind in ("fifo-bayesopt", "hb-stopping-bayesopt"):
                 c = gen_gp_twin_many_pending(rng, kind)
